@@ -219,7 +219,7 @@ def cases_for(tier):
     for n in (3, 4):
         for edges in graphref.simple_graphs(n):
             if 2 <= len(edges) <= 5:
-                for grown in (1, len(edges) - 1):
+                for grown in (1, len(edges) - 1, len(edges)):
                     for acyclic in (False, True):
                         for ugp in (False, True):
                             out.append({"form": "vars", "n": n, "edges": list(edges), "acyclic": acyclic, "ugp": ugp, "cfg": False, "grown": grown})
